@@ -15,7 +15,58 @@ fn big() -> Rectangle {
     Rectangle::new(Point::new(-100000, -100000), Size::new(200000, 200000))
 }
 
+/// p_thick_grid tri <w> <align> <kx> <ky> <i>  /  p_thick_grid poly <w> <kx> <ky> <i>
+/// exhaustive stratum: ALL ordered vertex triples of a kx x ky grid whose first vertex has index i (x = i % kx, y = i / kx);
+/// every pixels() item of the stroked triangle / 3-vertex polyline must lie in the styled bounding_box().  Small grids at
+/// width 2..3 are where join corners round to one point (ThickSegment::is_skeleton() for a stroke wider than 1 px) --
+/// about 1 in 10^5 random triangles, so the random strata of p_thick_bbox do not reach them (mutation
+/// closed_thick_segment_iter.rs `ThickSegment::new(end_join, start_join)`: Triangle (2,0),(0,3),(3,8) width 2 Center).
+fn thick_grid(a: &[&str]) -> String {
+    let poly = a[0] == "poly";
+    let w = u(a[1]);
+    let o = if poly { 2 } else { 3 };
+    let (kx, ky, i) = (i(a[o]), i(a[o + 1]), i(a[o + 2]));
+    let p = |n: i32| Point::new(n % kx, n / kx);
+    let b = PrimitiveStyleBuilder::new().stroke_color(Rgb565::GREEN).stroke_width(w);
+    let st = if poly {
+        b.build()
+    } else {
+        b.stroke_alignment(match a[2] {
+            "0" => StrokeAlignment::Inside,
+            "1" => StrokeAlignment::Center,
+            _ => StrokeAlignment::Outside,
+        })
+        .build()
+    };
+    let mut n = 0usize;
+    for j in 0..kx * ky {
+        for k in 0..kx * ky {
+            let v = [p(i), p(j), p(k)];
+            let (bb, bad) = if poly {
+                let s = Polyline::new(&v).into_styled(st);
+                let bb = s.bounding_box();
+                (bb, s.pixels().map(|Pixel(q, _)| q).find(|q| !bb.contains(*q)))
+            } else {
+                let s = Triangle::new(v[0], v[1], v[2]).into_styled(st);
+                let bb = s.bounding_box();
+                (bb, s.pixels().map(|Pixel(q, _)| q).find(|q| !bb.contains(*q)))
+            };
+            if let Some(q) = bad {
+                return format!(
+                    "FAIL {} ({},{}) ({},{}) ({},{}) width {}: pixel ({},{}) is outside the styled bounding box {} {} {} {}",
+                    a[0], v[0].x, v[0].y, v[1].x, v[1].y, v[2].x, v[2].y, w, q.x, q.y, bb.top_left.x, bb.top_left.y, bb.size.width, bb.size.height
+                );
+            }
+            n += 1;
+        }
+    }
+    format!("OK {}", n)
+}
+
 pub fn run(suite: &str, a: &[&str]) -> Option<String> {
+    if suite == "p_thick_grid" {
+        return Some(thick_grid(a));
+    }
     if suite != "p_thick_bbox" {
         return None;
     }
